@@ -133,6 +133,15 @@ def coq_make(targets, timeout=1500, clean=False):
 THM_RE = re.compile(r"^\s*(Theorem|Lemma|Example|Corollary)\s+([A-Za-z0-9_']+)", re.M)
 
 
+# the compiled evaluators the generated case files of each property import (rebuilt with the proofs, so that they are never
+# stale with respect to regenerated files)
+CORR_VO = {
+    "C01": ["Corr01.vo"], "C02": ["Corr02.vo"], "C03": ["Corr02.vo"], "C09": ["Corr02.vo"], "C10": ["Corr02.vo"], "C19": ["Corr02.vo"],
+    "C13": ["Corr02.vo", "Corr08.vo", "Unrolled.vo"], "C04": ["Corr04.vo"], "C06": ["Corr06.vo"], "C07": ["Corr07.vo"], "C08": ["Corr08.vo"],
+    "C14": ["Corr14.vo"], "C15": ["Corr14.vo"], "C16": ["Corr16.vo"], "C18": ["Corr18.vo"],
+}
+
+
 def props_check(pid, extra_files=()):
     """Compile Props/<pid>.v afresh, capture Print Assumptions. Returns dict with obligations, discharged, failed, log."""
     rel = "Props/%s.v" % pid
@@ -141,7 +150,7 @@ def props_check(pid, extra_files=()):
     thms = [(m.group(2), src[:m.start()].count("\n") + 1) for m in THM_RE.finditer(src)]
     n_print = len(re.findall(r"Print\s+Assumptions", src))
     # dependencies first
-    ok, out = coq_make([rel + "o"])
+    ok, out = coq_make([rel + "o"] + CORR_VO.get(pid, []))
     res = {"theorems": [t for t, _ in thms], "obligations": len(thms), "discharged": 0, "failed": [], "log": out,
            "assumptions": []}
     if not ok:
